@@ -64,7 +64,10 @@ def make_protocol(cls_name):
     from mysensors.transport import BaseMySensorsProtocol, AsyncMySensorsProtocol
     from mysensors.gateway_tcp import AsyncTCPMySensorsProtocol
     cls = {"base": BaseMySensorsProtocol, "async": AsyncMySensorsProtocol, "asynctcp": AsyncTCPMySensorsProtocol}[cls_name]
-    gw = BaseAsyncGateway(G.FakeTransport(), protocol_version="2.2")
+    # a real gateway with its real transport object (never connected): the protocol classes read attributes of
+    # gateway.tasks.transport, and a stand-in would only know the attributes of today
+    import mysensors.gateway_serial as gs
+    gw = gs.AsyncSerialGateway("/dev/ttyFAKE", protocol_version="2.2")
     lines = []
 
     def add_job(func, *args):
@@ -1141,10 +1144,15 @@ def end_to_end(version, chunks, cls_name):
     from mysensors import BaseAsyncGateway
     from mysensors.transport import BaseMySensorsProtocol, AsyncMySensorsProtocol
     import mysensors.handler as handler
-    tr = G.FakeTransport()
-    gw = BaseAsyncGateway(tr, protocol_version=version)
+    # the real asyncio serial gateway with its real transport object; a protocol object of the wanted class is
+    # put in the place of the transport's own and given a recording connection
+    import mysensors.gateway_serial as gs
+    gw = gs.AsyncSerialGateway("/dev/ttyFAKE", protocol_version=version)
     cls = BaseMySensorsProtocol if cls_name == "base" else AsyncMySensorsProtocol
     proto = cls(gw, lambda: None)
+    conn = _Writer()
+    proto.transport = conn
+    gw.tasks.transport.protocol = proto
     orig = handler.time.localtime
     handler.time.localtime = lambda *a: time.gmtime(0)
     exc = None
@@ -1158,7 +1166,7 @@ def end_to_end(version, chunks, cls_name):
     finally:
         handler.time.localtime = orig
     end_to_end.last_ota = G.project_ota(gw.tasks.ota)
-    return G.project_sensors(gw.sensors), list(tr.log), bytes(proto.buffer), exc
+    return G.project_sensors(gw.sensors), [w.decode("utf-8", "surrogatepass") for w in conn.writes], bytes(proto.buffer), exc
 
 
 def part_end_to_end(res, rng, tier, driver=None):
@@ -1228,18 +1236,135 @@ def part_end_to_end(res, rng, tier, driver=None):
         res.count("end-to-end-vs-model", len(model))
 
 
+# ------------------------------------------------------------------------------------------
+# part 4: the two flavours on their REAL transport objects, with lines that echo the gateway's own commands
+# ------------------------------------------------------------------------------------------
+
+class _Writer:
+    """the connection object a real Transport.send writes to"""
+
+    def __init__(self):
+        self.writes = []
+        self.serial = self
+
+    def write(self, data):
+        self.writes.append(bytes(data))
+
+    def close(self):
+        pass
+
+
+def run_on_real_transport(flavour, version, chunks):
+    """SerialGateway / AsyncSerialGateway with their own SyncTransport / AsyncTransport and protocol object, a
+    recording connection attached; the threaded pump is the real _poll_queue, one iteration at a time.
+    flavour: 'async' | 'sync-burst' (pump after everything arrived) | 'sync-drained' (pump after every chunk)"""
+    import mysensors.gateway_serial as gs
+    import mysensors.handler as handler
+    import mysensors.task as task
+    gw = (gs.AsyncSerialGateway if flavour == "async" else gs.SerialGateway)("/dev/ttyFAKE", protocol_version=version)
+    conn = _Writer()
+    proto = gw.tasks.transport.protocol
+    proto.transport = conn
+    excs = []
+    marks = []
+
+    def drain():
+        n = 0
+        while gw.tasks.queue and n < 100000:
+            gw.tasks._stop_event = OneShot()
+            gw.tasks._poll_queue()
+            n += 1
+    orig_lt, orig_time = handler.time.localtime, task.time
+    handler.time.localtime = lambda *a: time.gmtime(0)
+    task.time = FakeTime()
+    try:
+        for c in chunks:
+            try:
+                proto.data_received(c)
+                if flavour == "sync-drained":
+                    drain()
+            except Exception as exc:  # noqa: BLE001
+                excs.append(G.exc_kind(exc))
+            marks.append(len(conn.writes))
+        if flavour != "async":
+            try:
+                drain()
+            except Exception as exc:  # noqa: BLE001
+                excs.append(G.exc_kind(exc))
+    finally:
+        handler.time.localtime, task.time = orig_lt, orig_time
+    return G.project_sensors(gw.sensors), conn.writes, marks, excs
+
+
+def part_real_transports(res, rng, tier):
+    """Theorems flavours_partial_state / flavours_partial_output: same state, same commands as a multiset.  The
+    streams are generated histories into which lines are woven that repeat, character for character, a command
+    the gateway has just sent (what a half-duplex adapter echoes, or a node parroting its controller)."""
+    n = (25 if tier == "quick" else 250) * common.effort(tier)
+    for i in range(n):
+        version = rng.choice(["2.2", "2.0", "2.1", "1.5", "1.4"])
+        hist = G.gen_history(rng, version, rng.choice([15, 30]), persist=False, ota=False, sleep=True, malformed=0.1)
+        lines = [op[1].encode("utf-8", "replace") for op in hist if op[0] == "L"]
+        lines = [l if l.endswith(b"\n") else l + b"\n" for l in lines]
+        # reference run, line by line, to learn what each line makes the gateway send
+        _st, writes, marks, _ex = run_on_real_transport("async", version, lines)
+        stream_lines, prev = [], 0
+        for l, m in zip(lines, marks):
+            stream_lines.append(l)
+            if m > prev and rng.random() < 0.4:
+                stream_lines.append(rng.choice(writes[prev:m]))
+            prev = m
+        data = b"".join(stream_lines)
+        a = run_on_real_transport("async", version, [data])
+        b = run_on_real_transport("sync-burst", version, [data])
+        c = run_on_real_transport("sync-drained", version, stream_lines)
+        res.evaluations += 3
+        res.count("real-transports")
+        res.count("real-transports-echo-lines", len(stream_lines) - len(lines))
+        if a[1]:
+            res.distinct.add(digest(("rt", version, data)))
+        for name, other in (("threaded, pumped after the whole stream", b), ("threaded, pumped after every line", c)):
+            what = None
+            if a[3] or other[3]:
+                what = f"an exception escaped: asyncio {a[3]}, {name} {other[3]}"
+            elif a[0] != other[0]:
+                what = f"asyncio and {name} end in different states"
+            elif sorted(a[1]) != sorted(other[1]):
+                import collections
+                ca, co = collections.Counter(a[1]), collections.Counter(other[1])
+                what = (f"asyncio and {name} send different commands: more often by asyncio {sorted((ca - co).elements())[:4]}, "
+                        f"more often by threaded {sorted((co - ca).elements())[:4]}")
+            if what:
+                res.oracle_failures.append({"key": {"kind": "real-transports-differ"},
+                                            "what": f"version {version}, {len(stream_lines)} lines on the real transports: {what}",
+                                            "replay": {"part": "rt", "version": version,
+                                                       "lines": [x.hex() for x in stream_lines]}})
+                break
+
+
 def run(tier, seed, driver):
     res = Result()
     rng = random.Random(seed * 7919 + 19)
-    part_framing(res, rng, driver, tier)
-    part_events(res, rng, driver, tier)
-    try:
-        part_tcp_reader(res, rng, tier, driver)
-    except OSError as exc:
-        res.count("tcp-reader skipped: " + str(exc)[:60])
-    part_serial_reader(res, rng, tier, driver)
-    part_flavours(res, rng, driver, tier)
-    part_end_to_end(res, rng, tier, driver)
+    def part(name, fn, *args):
+        # a part that cannot run on the code as it is now is a broken obligation (reported), but it must not keep
+        # the other parts from looking for a concrete failing input; each part draws from its own generator
+        import traceback
+        try:
+            fn(res, *args)
+        except Exception as exc:  # noqa: BLE001
+            if name == "tcp-reader" and isinstance(exc, OSError):
+                res.count("tcp-reader skipped: " + str(exc)[:60])
+                return
+            where = [ln.strip() for ln in traceback.format_exc().splitlines() if ln.strip()][-2][:160]
+            res.corr_diffs.append({"name": "harness-part-" + name + "-cannot-run", "case": "-", "model": "",
+                                   "impl": f"{type(exc).__name__}: {exc} | {where}"})
+    part("framing", part_framing, rng, driver, tier)
+    part("events", part_events, rng, driver, tier)
+    part("tcp-reader", part_tcp_reader, rng, tier, driver)
+    part("serial-reader", part_serial_reader, rng, tier, driver)
+    part("flavours", part_flavours, rng, driver, tier)
+    part("end-to-end", part_end_to_end, rng, tier, driver)
+    part("real-transports", part_real_transports, random.Random(seed * 104729 + 7), tier)
     res.exhaustive = False
     res.rule = ("framing: byte streams built from valid frames, garbage, CRLF/LF, empty lines, multi-byte and "
                 "invalid UTF-8, NUL, unterminated tails, unterminated noise of 101 … 8193 (thorough: 200001) bytes before "
@@ -1305,6 +1430,15 @@ def replay(payload):
         whole = end_to_end(r["version"], [stream], "base")
         print("equal:", got == whole)
         return 0 if got == whole else 1
+    if part == "rt":
+        ls = [bytes.fromhex(x) for x in r["lines"]]
+        a = run_on_real_transport("async", r["version"], [b"".join(ls)])
+        b = run_on_real_transport("sync-burst", r["version"], [b"".join(ls)])
+        c = run_on_real_transport("sync-drained", r["version"], ls)
+        for nme, x in (("asyncio", a), ("threaded burst", b), ("threaded drained", c)):
+            print(nme, "state:", x[0][:300], "sent:", sorted(x[1])[:12], "exc:", x[3])
+        same = all(x[0] == a[0] and sorted(x[1]) == sorted(a[1]) and not x[3] for x in (a, b, c))
+        return 0 if same else 1
     if part == "serial":
         print("stream:", bytes.fromhex(r["stream"]), "reads:", [bytes.fromhex(x) for x in r["reads"]])
         print("spec  :", spec_feed(bytes.fromhex(r["stream"])))
